@@ -6,6 +6,7 @@ import re
 from sa import cfg as cfgmod
 from sa import consume
 from sa import model
+from sa import norm
 from sa import universe as unimod
 from sa.model import AnalysisError
 
@@ -181,22 +182,21 @@ def check_r11a(repo, rep):
                        loc=mod.loc(it), construct=txt)
     # guarded by "not lazy"
     for name, (lam, sites) in evaluators.items():
+        a = lam.args
+        first = (a.posonlyargs + a.args)[0].arg if (
+            a.posonlyargs + a.args) else None
         for s in sites:
-            guard = None
-            n = s
-            while n is not None and n is not lam:
-                p = getattr(n, '_parent', None)
-                if isinstance(p, ast.IfExp) and n is p.body:
-                    guard = p.test
-                if isinstance(p, ast.If) and any(n is x for x in p.body):
-                    guard = p.test
-                n = p
-            ok = guard is not None and 'lazy' in model.norm(guard) and \
-                'not in' in model.norm(guard)
-            rep.ob('R11a', fi.key + '/lazy-arguments-skipped', ok,
-                   'the evaluation site must be guarded by "index not in '
-                   'the lazy set"; guard is %s' % (
-                       model.norm(guard) if guard is not None else 'absent'),
+            pol = norm.literal_polarity(
+                s, lam, lambda e: isinstance(e, ast.Compare) and
+                len(e.ops) == 1 and isinstance(e.ops[0], ast.In) and
+                isinstance(e.left, ast.Name) and e.left.id == first and
+                isinstance(e.comparators[0], ast.Name))
+            rep.ob('R11a', fi.key + '/lazy-arguments-skipped',
+                   pol is False,
+                   'the evaluation site must be reached only when "%s not '
+                   'in <the lazy set>" holds; %s' % (
+                       first, 'it is reached when the index IS in the set'
+                       if pol is True else 'no such condition guards it'),
                    loc=mod.loc(s), construct=model.norm(s))
     return nsites
 
@@ -439,9 +439,11 @@ def max_calls_per_path(fi, call_nodes):
     return best
 
 
-def boolop_short_circuit(fi, a, b):
-    """The calls of a and b are operands i < j of one BoolOp (or b's call is
-    in the operand after a local bound to a())."""
+def boolop_short_circuit(fi, a, b, want):
+    """b() is evaluated only on paths on which the result of a() is known
+    to be truthy (want=True, `and`) / falsy (want=False, `or`) -- spelled
+    as a short-circuit operator, a conditional expression, if/else or an
+    early return, directly on a() or on a local bound to it."""
     calls_a = [c for c in model.calls_in(fi.node, shallow=True)
                if isinstance(c.func, ast.Name) and c.func.id == a]
     calls_b = [c for c in model.calls_in(fi.node, shallow=True)
@@ -450,34 +452,29 @@ def boolop_short_circuit(fi, a, b):
         return False, '%s called %d times, %s called %d times' % (
             a, len(calls_a), b, len(calls_b))
     ca, cb = calls_a[0], calls_b[0]
-    pb = getattr(cb, '_parent', None)
-    if isinstance(pb, ast.BoolOp) and cb in pb.values:
-        j = pb.values.index(cb)
-        if j == 0:
-            return False, '%s() is the first operand' % b
-        first = pb.values[0]
-        if first is ca:
-            return True, ''
-        if isinstance(first, ast.Name):
-            # x = a(); return x and b()
-            for s in model.walk_shallow(fi.node):
-                if isinstance(s, ast.Assign) and s.value is ca and any(
-                        isinstance(t, ast.Name) and t.id == first.id
-                        for t in s.targets):
-                    return True, ''
-        return False, 'the operand before %s() is not the result of %s()' % (
-            b, a)
-    # if a(): return b()   /  return b() if a() else ...
-    n = cb
-    while n is not None and n is not fi.node:
-        p = getattr(n, '_parent', None)
-        if isinstance(p, (ast.If, ast.IfExp)) and n is not p.test:
-            if any(x is ca for x in ast.walk(p.test)):
-                return True, ''
-        n = p
-    return False, '%s() is evaluated unconditionally: it is not the later ' \
-                  'operand of a short-circuit and/or whose earlier operand ' \
-                  'is %s()' % (b, a)
+    bound = norm.single_assignments(fi.node)
+
+    def is_result_of_a(e):
+        if isinstance(e, ast.Call) and isinstance(e.func, ast.Name) and \
+                e.func.id == a:
+            return True
+        if isinstance(e, ast.Name) and bound.get(e.id) is ca:
+            return True
+        return False
+    pol = None
+    for e, p in norm.guards(cb, fi.node, substitute=False):
+        for at, p2 in norm.atoms(e, p):
+            if is_result_of_a(at):
+                pol = p2
+    if pol is None:
+        return False, '%s() is evaluated unconditionally: no test of the ' \
+                      'result of %s() guards it' % (b, a)
+    if pol != want:
+        return False, '%s() is evaluated when the result of %s() is %s; ' \
+                      'it must be evaluated only when it is %s' % (
+                          b, a, 'truthy' if pol else 'falsy',
+                          'truthy' if want else 'falsy')
+    return True, ''
 
 
 def check_r11d(repo, rep, uni):
@@ -489,7 +486,7 @@ def check_r11d(repo, rep, uni):
     for q in ('and_', 'or_'):
         fi = bo.func(q)
         ps = fi.params()
-        ok, why = boolop_short_circuit(fi, ps[0], ps[1])
+        ok, why = boolop_short_circuit(fi, ps[0], ps[1], q == 'and_')
         n += 1
         rep.ob('R11d', fi.key + '/short-circuit', ok,
                '`%s` must evaluate its right operand only when the left '
